@@ -72,7 +72,7 @@ class HistoryGen:
         if roll < 0.5:
             return rng.choice(["0", "1", "20.5", "on", "", "abc", "a;b", " x", "x y", "日本", "55.7;13.0;18", "a\rb",
                                "l1\u2028l2", "t\tt", "a\x0cb", "l1\nl2", "Temp: 21;Hum: 40\nDoor: open", "#ff8800",
-                               "1.10", "1.1", "007", "7"])
+                               "1.10", "1.1", "007", "7", "bad\udc80byte", "\ud800"])
         if roll < 0.7:
             return rng.choice(gens.NUMBER_PAYLOADS[:32])
         return gens.random_payload(rng, roundtrip_safe=True)
@@ -268,6 +268,8 @@ def rich_history(rng: random.Random, version: str | None, length: int) -> list[l
             steps.append(["clock", rng.choice([1, 61, 301, 601, 3601, 7201, 86401, 90000])])  # time passes
         elif roll < 0.94:
             steps.append(["forget", rng.choice([1, 2, 7])])  # the application removes a node from the registry
+        elif roll < 0.942:
+            steps.append(["rebind-children", rng.choice([1, 2])])
         elif roll < 0.944:
             steps.append(["rebind"])
         elif roll < 0.95:
